@@ -77,6 +77,7 @@ func cmdCheck(args []string) int {
 	verbose := fs.Bool("v", false, "verbose")
 	noReplay := fs.Bool("no-replay", false, "skip native replay/validation (debugging)")
 	budget := fs.Duration("budget", 0, "per-harness wall-clock budget override")
+	qto := fs.Int("qtimeout", 0, "primary solver per-query timeout in ms")
 	noIfConv := fs.Bool("no-ifconv", false, "disable if-conversion (debugging)")
 	twin := fs.Bool("twin", false, "vacuity twin: negate every final assertion (must be violated)")
 	fs.Parse(args)
@@ -99,6 +100,9 @@ func cmdCheck(args []string) int {
 		cfg.seed, _ = strconv.ParseInt(s, 10, 64)
 	}
 	_ = twin
+	if *qto > 0 {
+		cfg.queryTimeoutMs = *qto
+	}
 	cfg.noIfConv = *noIfConv
 
 	harnessDir := filepath.Join(*verif, "harness")
@@ -180,6 +184,7 @@ func (s *SolverStats) add(o SolverStats) {
 		s.MaxQuery = o.MaxQuery
 	}
 	s.Restarts += o.Restarts
+	s.Fallbacks += o.Fallbacks
 }
 
 type report struct {
